@@ -48,7 +48,13 @@ ASSUMPTIONS = [
     "modified_basis=True) (only in commented-out callers) only the constant clause is asserted",
     "hierarchical polynomial clauses use the tolerance scale*(1e-10 + 1e-14*cond(collocation matrix)) and are skipped "
     "(counted as class 'ill-conditioned-skipped', never a violation) when cond > 1e9",
+    "high-order rule, attained order: only on uniform grids (>= 3 points, boundary on) is a minimum order demanded "
+    "(min(2, max_degree); the degree-2 weights are provably positive there); elsewhere the attained order depends on the "
+    "library's non-negativity test and only 'exact up to what it reports' is demanded",
     "GlobalHighOrderGrid: do_nnls=False and modified_basis=False (no live caller passes anything else)",
+    "GlobalBSplineGrid trees are generated with tree level <= 11 (quick) / 13 (thorough): the class materialises the "
+    "complete dyadic hierarchy (2^level entries per level), deeper trees are infeasible for the library itself; the "
+    "other grids see levels up to 40/60",
 ]
 
 _A = [0.0, -1.0, 2.0, -3.0, 0.25, 0.1, -0.7071067811865476, 1.0]
@@ -404,10 +410,10 @@ def run_highorder(case):
             causes = set()
             if not boundary:
                 _ho_blocks_explain(g, pts, lev, wfull, 0, len(pts) - 1, causes)
-            cause = "+".join(sorted(causes)) if causes else "unexplained"
-            out.bad("%s/constants/%s/%s" % (sub, tagb, cause),
-                    "dim %d: weights sum to %r, interval length %r; split_up=%s max_degree=%d pts=%s"
-                    % (d, mass, L, split, maxdeg, pts[:10]))
+            for cause in (sorted(causes) if causes else ["unexplained"]):
+                out.bad("%s/constants/%s/%s" % (sub, tagb, cause),
+                        "dim %d: weights sum to %r, interval length %r; split_up=%s max_degree=%d n=%d pts=%s"
+                        % (d, mass, L, split, maxdeg, len(pts), pts[:10]))
         # (2) the degree the rule itself reports (second, observing call on the same object)
         w0, deg = _silent(g.get_1D_weights_and_order, list(pts), a[d], b[d], list(lev))
         if split and len(pts) > 1 and (len(pts) > 3 or boundary):
@@ -427,6 +433,15 @@ def run_highorder(case):
             out.cls("reported-degree==max_degree")
         if deg > maxdeg:
             out.bad(sub + "/reported-degree/above-max_degree", "dim %d: reported degree %d > max_degree %d" % (d, deg, maxdeg))
+        # "their order when there are enough points": on a uniform grid (>= 3 points, boundary on) the degree-2
+        # moment-matched weights are positive (3 points: Simpson), so a rule with max_degree >= 2 must reach order 2
+        widths = [pts[i + 1] - pts[i] for i in range(len(pts) - 1)]
+        if boundary and len(pts) >= 3 and max(widths) <= (1 + 1e-9) * min(widths):
+            out.cls("uniform-grid")
+            if deg < min(2, maxdeg):
+                out.bad(sub + "/order-on-uniform-grid/boundary=on",
+                        "dim %d: uniform grid with %d points, max_degree=%d, split_up=%s: the rule only reports degree %d"
+                        % (d, len(pts), maxdeg, split, deg))
         # (3) exactness: linear with boundary; up to the reported degree (boundary off: only if it reports >= 2)
         if boundary:
             kmax = max(1, deg)
@@ -471,6 +486,16 @@ def run_highorder(case):
                     "integrate(x^%s) = %r, exact %r (reported degrees %s)" % (list(ks), got, ref, degs))
             break
     return out
+
+
+class _Monos(object):
+    """vector valued: all monomials of the list at once (one hierarchisation for all of them)."""
+
+    def __init__(self, combos):
+        self.monos = [_Mono(ks) for ks in combos]
+
+    def __call__(self, t):
+        return [m(t) for m in self.monos]
 
 
 class _Mono(object):
@@ -540,10 +565,13 @@ def run_hierarchical(case):
     else:
         combos = sorted({(0, 0), (min(1, kmax[0]), min(1, kmax[1])), (kmax[0], 0), (0, kmax[1]), (kmax[0], kmax[1])})
     relmax = 0.0
-    for ks in combos:
-        f = FunctionCustom(_Mono(ks))
-        got = _silent(g.integrate, f, [max(t[1]) for t in trees], a, b)
-        got = float(np.asarray(got).reshape(-1)[0])
+    f = FunctionCustom(_Monos(combos), output_dim=len(combos))
+    res = np.asarray(_silent(g.integrate, f, [max(t[1]) for t in trees], a, b), dtype=float).reshape(-1)
+    if len(res) != len(combos):
+        out.bad(sub + "/structure/integrate-output-length", "%d results for %d components" % (len(res), len(combos)))
+        return out
+    for ci, ks in enumerate(combos):
+        got = float(res[ci])
         ref, sc = 1.0, 1.0
         for d in range(dim):
             ref *= mono_integral(a[d], b[d], ks[d])
@@ -566,7 +594,7 @@ def run_hierarchical(case):
 # strategies
 # ----------------------------------------------------------------------------------------------------------------
 @st.composite
-def _tree(draw, max_splits, min_complete=0, graded_ok=True, weighted_ok=True):
+def _tree(draw, max_splits, min_complete=0, graded_ok=True, weighted_ok=True, max_level=60):
     shape = draw(st.sampled_from(["random", "random", "left", "right", "zigzag", "complete", "complete"]
                                  if graded_ok else ["random", "complete", "complete"]))
     rmode = draw(st.sampled_from(["dyadic", "dyadic", "weighted", "extreme", "mixed"] if weighted_ok else ["dyadic"]))
@@ -582,13 +610,19 @@ def _tree(draw, max_splits, min_complete=0, graded_ok=True, weighted_ok=True):
 
     splits = []
     count = 1                      # number of leaves
+    lev = [0, 0]                   # levels, simulated so that max_level can be respected by construction
+
+    def do_split(i, r):
+        splits.append([i, r])
+        lev.insert(i + 1, max(lev[i], lev[i + 1]) + 1)
+
     depth = min_complete
     if shape == "complete":
         depth = max(min_complete, draw(st.integers(1, 3)))
     for l in range(depth):
         # split every leaf of the current complete level, left to right (index 0,2,4,... after insertion)
         for j in range(2 ** l):
-            splits.append([2 * j, ratio()])
+            do_split(2 * j, ratio())
         count = 2 ** (l + 1)
     n = draw(st.integers(0 if splits else 1, max(1, max_splits - len(splits))))
     last = 0
@@ -601,8 +635,14 @@ def _tree(draw, max_splits, min_complete=0, graded_ok=True, weighted_ok=True):
             i = last if (len(splits) % 2 == 0) else min(count - 1, last + 1)
         else:
             i = draw(st.integers(0, count - 1))
+        for _try in range(count):          # respect max_level: move on to the next leaf that may still be split
+            if max(lev[i], lev[i + 1]) + 1 <= max_level:
+                break
+            i = (i + 1) % count
+        else:
+            break
         last = i
-        splits.append([i, ratio()])
+        do_split(i, ratio())
         count += 1
     return splits
 
@@ -641,6 +681,24 @@ def highorder_strategy(tier):
     return s()
 
 
+def complete_splits(depth, ratio=0.5):
+    return [[2 * j, ratio] for l in range(depth) for j in range(2 ** l)]
+
+
+def highorder_fixed():
+    """uniform grids (complete dyadic trees): here the order of the rule is known a priori."""
+    cases = []
+    for depth in (1, 2, 3, 4, 5):
+        for md in (2, 3, 5):
+            for split in (False, True):
+                for a, ln in ((0.0, 1.0), (-3.0, 9.0), (2.0, 0.5)):
+                    cases.append(dict(a=[a], len=[ln], boundary=True, max_degree=md, split_up=split,
+                                      trees=[complete_splits(depth)], rng=0))
+    cases.append(dict(a=[0.0, 2.0], len=[1.0, 3.0], boundary=True, max_degree=2, split_up=False,
+                      trees=[complete_splits(2), complete_splits(3)], rng=0))
+    return cases
+
+
 def hierarchical_strategy(tier):
     big = 30 if tier == "quick" else 45
 
@@ -658,8 +716,10 @@ def hierarchical_strategy(tier):
             mode = draw(st.sampled_from(["boundary", "boundary", "boundary", "modified"]))
             need = draw(st.sampled_from([0, 0, {1: 1, 3: 2, 5: 3}[p]]))
         small = draw(st.integers(0, 6)) == 0
+        # GlobalBSplineGrid materialises the complete dyadic hierarchy (2^level entries per level): bound the depth
         trees = [draw(_tree(draw(st.integers(1, 4)) if small else (big if dim == 1 else 10),
-                            min_complete=0 if small else need)) for _ in range(dim)]
+                            min_complete=0 if small else need,
+                            max_level=(11 if tier == "quick" else 13) if family == "bspline" else 60)) for _ in range(dim)]
         return dict(a=a, len=ln, family=family, p=p, mode=mode, trees=trees, rng=draw(st.integers(0, 2 ** 31 - 1)))
     return s()
 
@@ -720,7 +780,7 @@ SUBS = [
     Sub("trapezoid", trapezoid_strategy, run_trapezoid, dict(quick=4800, thorough=60000),
         budget_s=dict(quick=40, thorough=420)),
     Sub("highorder", highorder_strategy, run_highorder, dict(quick=3200, thorough=40000),
-        budget_s=dict(quick=40, thorough=420)),
+        budget_s=dict(quick=40, thorough=420), fixed_cases=highorder_fixed),
     Sub("hierarchical", hierarchical_strategy, run_hierarchical, dict(quick=1600, thorough=16000),
         budget_s=dict(quick=45, thorough=540)),
 ]
